@@ -39,6 +39,9 @@ RULE = ('kernel cases: seeded record columns of 2-12 surfaces, sphere centres ne
         'virtual exit pupils, curved image surfaces (25 %); multi-wavelength calls on dispersive catalogue-glass lenses with off-axis '
         'fields (explicit wavelength list in both orders, \'all\', OPDFan, RmsWavefrontErrorVsField): every (field, wavelength) cell '
         'against the oracle and the model generate_data, per-wavelength results independent of the list order; '
+        'lossy lenses (coating T<1 / clipping RadialAperture / absorbing glass, intensities in [0,1)): OPD, ZernikeOPD, OPDFan, Wavefront, '
+        'RmsWavefrontErrorVsField objects queried through every public call in shuffled order with repeats, re-compared with the oracle after each step; '
+        'dispersive object-space media (AbbeMaterial / catalogue glass on surface 0, infinite object, off-axis, non-primary wavelengths); '
         'non-trivial = finite reported OPD on a distinct (lens, field, wavelength, distribution)')
 PARTIAL = [
     'the optical path recorded by the trace (sum of n*length) is C02\'s theorem, here a hypothesis of the model (ropd)',
